@@ -387,13 +387,16 @@ def joinWith (sep : Str) : List Str → Str
 
 def hwcName (h : Nat) : Option Str := (Gen.REV_HWCID_MAP.find? (fun p => p.1 == h)).map (·.2.toList)
 
+/-- one filter entry: the component's name or `0xHHHH`, with `!` when bit 14 is set -/
+def entryName (e : Nat) : Str :=
+  let hw := e % 0x4000
+  let nm := match hwcName hw with | some n => n | none => "0x".toList ++ hex4Upper hw
+  if e / 0x4000 % 2 = 1 then '!' :: nm else nm
+
 def pfid2Loop : Bytes → List Str → List Str → List Str
   | hi :: lo :: r, groups, cur =>
     let e := hi.toNat * 256 + lo.toNat
-    let hw := e % 0x4000
-    let nm := match hwcName hw with | some n => n | none => "0x".toList ++ hex4Upper hw
-    let nm := if e / 0x4000 % 2 = 1 then '!' :: nm else nm
-    let cur := cur ++ [nm]
+    let cur := cur ++ [entryName e]
     if e / 0x8000 % 2 = 0 then
       pfid2Loop r (groups ++ [if cur.length = 1 then joinWith [] cur else ['('] ++ joinWith " | ".toList cur ++ [')']]) []
     else pfid2Loop r groups cur
